@@ -14,13 +14,16 @@ impl Prop for C16 {
     fn id(&self) -> &'static str { "C16" }
     fn rule(&self) -> String {
         "real binary: key generate, then k password changes (k = 1..4 quick, up to 8 thorough) over passwords {empty, ASCII, UTF-8, 100 bytes, two long passphrases sharing an 87-byte prefix, trailing space}, including changes to the SAME password, interleaved with extract-pub and with an encrypt/decrypt round trip using the current string; \
-         every printed PrivateKey string is unlocked by the Lean model with the newest password to one and the same private key; every earlier password (unless equal as an HMAC key) and unrelated passwords are refused by the binary and by the model; salts pairwise distinct; \
+         every printed PrivateKey string is unlocked by the Lean model with the newest password to one and the same private key; every earlier password of the history (unless equal as an HMAC key) and unrelated passwords are refused by the binary (extract-pub and change-pass) and by the model, including histories where passwords differ only by trailing white space or line endings; salts pairwise distinct; \
          extract-pub always prints the PublicKey line written at generation, equal to encode(pub(sk)) computed by the model; no output (stdout, stderr, keyring) contains the private key in raw, hex or base64 form. non-trivial = distinct history".into()
     }
     fn cases(&self, tier: &str, seed: u64) -> Vec<Case> {
         let th = tier == "thorough";
         let mut rng = Rng::new(seed ^ 0xC16);
-        (0..(if th { 40 } else { 10 })).map(|i| case(&[("k", (1 + i % (if th { 8 } else { 4 })).to_string()), ("seed", rng.next().to_string())])).collect()
+        let mut v: Vec<Case> = (0..(if th { 40 } else { 10 })).map(|i| case(&[("k", (1 + i % (if th { 8 } else { 4 })).to_string()), ("seed", rng.next().to_string())])).collect();
+        // histories in which a password is a later one plus white space / a line ending (KESTREL_PASSWORD is taken verbatim)
+        for h in ["lf", "crlf", "space", "only-lf"] { v.push(case(&[("k", "3".into()), ("hist", h.into()), ("seed", rng.next().to_string())])); }
+        v
     }
     fn run(&self, c: &Case, m: &mut Model) -> Outcome {
         let mut o = Outcome::default();
@@ -31,7 +34,9 @@ impl Prop for C16 {
         let long_a = format!("{} — first", "correct horse battery staple ".repeat(3)); let long_b = format!("{} — second", "correct horse battery staple ".repeat(3));   // share an 87-byte prefix
         let pool: Vec<String> = { let mut p = pool; p.push(long_a.clone()); p.push(long_b.clone()); p.push("trailing space ".into()); p };
         for i in 0..k { let mut p = pool[rng.below(pool.len())].clone(); if rng.chance(1, 4) || (i == 0 && k >= 2) { p = pws.last().unwrap().clone(); } if i == 1 && k >= 3 { p = long_a.clone(); } if i == 2 && k >= 3 { p = long_b.clone(); } pws.push(p); }
-        o.nontrivial = Some(format!("{}/{}", k, get(c, "seed"))); o.tags.push(format!("changes={}", k));
+        match get(c, "hist") { "lf" => pws = vec!["hunter2\n".into(), "hunter2".into(), "hunter2\n\n".into(), "hunter2\n".into()], "crlf" => pws = vec!["пароль\r\n".into(), "пароль".into(), "пароль\r".into(), "пароль".into()],
+            "space" => pws = vec![" pw ".into(), "pw".into(), "pw ".into(), " pw".into()], "only-lf" => pws = vec!["\n".into(), "".into(), "\r\n".into(), "".into()], _ => {} }
+        o.nontrivial = Some(format!("{}/{}{}", k, get(c, "seed"), get(c, "hist"))); o.tags.push(format!("changes={}", k)); if !get(c, "hist").is_empty() { o.tags.push(format!("history {}", get(c, "hist"))); }
         // generate
         let g = run_kestrel(&World { files: vec![], env: vec![("KESTREL_PASSWORD".into(), pws[0].clone())], stdin: b"subject\n".to_vec() }, &sv(&["key", "generate", "-o", "ring.txt", "--env-pass"]));
         let Some(ring) = g.file("ring.txt").cloned() else { o.oracle_fail = Some(("generate-succeeds".into(), g.stderr)); return o; };
@@ -70,6 +75,14 @@ impl Prop for C16 {
                 let mr = m.ask(&format!("unlock {} {}", hex(next.as_bytes()), hexd(old.as_bytes())));
                 if r.starts_with("ok") { o.oracle_fail = Some(("earlier-password-stops-working".into(), format!("after change {} the previous password still unlocks the new string", i + 1))); return o; }
                 if r != mr { o.disagreement = Some(format!("old password on new string: impl {} model {}", r, mr)); }
+            }
+            // ... and through the tool itself: every earlier password that differs (as an HMAC key) from the newest one is refused
+            for (j, earlier) in pws[..=i].iter().enumerate() {
+                if crate::props::c15::hmac_norm(earlier.as_bytes()) == crate::props::c15::hmac_norm(new.as_bytes()) { continue; }
+                let x = run_kestrel(&World { files: vec![], env: vec![("KESTREL_PASSWORD".into(), earlier.clone())], stdin: vec![] }, &sv(&["key", "extract-pub", &next, "--env-pass"]));
+                if x.exit != Some(1) || !x.stdout.is_empty() { o.oracle_fail = Some(("earlier-password-stops-working".into(), format!("after change {} (to {:?}) `kestrel key extract-pub` still accepts password {} of the history ({:?}): exit {:?}, printed {:?}", i + 1, new, j, earlier, x.exit, String::from_utf8_lossy(&x.stdout).trim()))); return o; }
+                let y = run_kestrel(&World { files: vec![], env: vec![("KESTREL_PASSWORD".into(), earlier.clone()), ("KESTREL_NEW_PASSWORD".into(), "n".into())], stdin: vec![] }, &sv(&["key", "change-pass", &next, "--env-pass"]));
+                if y.exit != Some(1) || !y.stdout.is_empty() { o.oracle_fail = Some(("earlier-password-stops-working".into(), format!("after change {} (to {:?}) `kestrel key change-pass` still accepts password {} of the history ({:?}) as the old password", i + 1, new, j, earlier))); return o; }
             }
             let salt = Base64::decode_to_vec(&next, None).map(|b| b[4..36].to_vec()).unwrap_or_default();
             if !salts.insert(salt) { o.oracle_fail = Some(("every-change-uses-a-new-salt".into(), format!("change {} reused a salt", i + 1))); return o; }
